@@ -24,10 +24,20 @@ func init() {
 		limit = v
 	}
 	SetInFlight("package initialisation (the path pool is measured by rendering one File per path)")
+	start := time.Now()
 	go func() {
 		var ms runtime.MemStats
 		for {
 			time.Sleep(250 * time.Millisecond)
+			if t := atomic.LoadInt64(&opStart); t != 0 && time.Since(time.Unix(0, t)) > opLimit() {
+				fmt.Fprintf(os.Stderr, "harness: HANG: the implementation did not return within %s while executing: %s\n(no property allows a render or save that never returns; on the unchanged tree the slowest operation takes seconds)\n",
+					opLimit(), inFlight.Load().(func() string)())
+				os.Exit(4)
+			}
+			if atomic.LoadInt32(&initDone) == 0 && time.Since(start) > initLimit {
+				fmt.Fprintf(os.Stderr, "harness: HANG: package initialisation (the path pool is measured by rendering one File per path) did not finish within %s: the implementation under test blocks in a render\n", initLimit)
+				os.Exit(4)
+			}
 			runtime.ReadMemStats(&ms)
 			if ms.HeapAlloc>>20 > limit {
 				fmt.Fprintf(os.Stderr, "harness: RUNAWAY MEMORY: Go heap %d MB > %d MB while executing: %s\n(the implementation under test allocates without bound; on the unchanged tree the harness stays far below the limit)\n",
@@ -42,3 +52,29 @@ func init() {
 func SetInFlight(s string) { inFlight.Store(func() string { return s }) }
 
 func setInFlightLazy(f func() string) { inFlight.Store(f) }
+
+// initDone is set by main at its start: package initialisation builds and renders Files
+// (props measures its path pool), and a changed implementation that blocks there would
+// otherwise hang the process before any case runs.
+var initDone int32
+
+const initLimit = 120 * time.Second
+
+// InitDone tells the watchdog that main has started.
+func InitDone() { atomic.StoreInt32(&initDone, 1) }
+
+// opStart: start time (unix nanoseconds) of the render/save operation that World.Exec is
+// executing now, 0 when none is.  Exec runs in many places (cases, generators that measure
+// something, oracles that re-execute a history), so the limit is enforced here and not in
+// the case loop of main.
+var opStart int64
+
+func opBegin() { atomic.StoreInt64(&opStart, time.Now().UnixNano()) }
+func opEnd()   { atomic.StoreInt64(&opStart, 0) }
+
+func opLimit() time.Duration {
+	if v, err := strconv.Atoi(os.Getenv("VERIF_CASE_TIMEOUT_S")); err == nil && v > 0 {
+		return time.Duration(v) * time.Second
+	}
+	return 300 * time.Second
+}
